@@ -200,9 +200,35 @@ impl<'a> Runner<'a> {
         } else {
             None
         };
-        let mut block = self
+        let created = self
             .rt
-            .block_on(builder.create_block(&creator, spec_for(pb.hash, ts, txs, gt)))?;
+            .block_on(builder.create_block(&creator, spec_for(pb.hash, ts, txs.clone(), gt.clone())));
+        let mut block = match created {
+            Ok(b) => b,
+            Err(e) if e.contains("double-spend") && !txs.is_empty() => {
+                // the honest producer refuses to assemble a block that spends an output twice
+                // (two transactions, or a transaction and a rebroadcast): build it around a
+                // prefix of the transactions and add the others the way a dishonest producer
+                // would (fee transaction and header recomputed)
+                let mut done = None;
+                for k in (0..txs.len()).rev() {
+                    let r = self.rt.block_on(builder.create_block(
+                        &creator,
+                        spec_for(pb.hash, ts, txs[..k].to_vec(), gt.clone()),
+                    ));
+                    if let Ok(mut b) = r {
+                        self.rt.block_on(inject_transactions(&mut b, &txs[k..], &builder, &creator));
+                        done = Some(b);
+                        break;
+                    }
+                }
+                match done {
+                    Some(b) => b,
+                    None => return Err(e),
+                }
+            }
+            Err(e) => return Err(e),
+        };
         if let Some(e) = &st.bedit {
             let before = block.serialize_for_net(saito_core::core::consensus::block::BlockType::Full);
             apply_block_level_edit(&mut block, e, &creator, &self.world, ts);
@@ -240,7 +266,7 @@ impl<'a> Runner<'a> {
     ) {
         let mut atr_i = 0;
         for tx in block.transactions.iter() {
-            let prefix = if let Some(d) = descs.get(&tx.signature) {
+            let prefix = if let Some(d) = desc_for(tx, descs) {
                 d.id.clone()
             } else {
                 match tx.transaction_type {
@@ -290,7 +316,7 @@ impl<'a> Runner<'a> {
             .transactions
             .iter()
             .map(|tx| {
-                let d = bb.descs.get(&tx.signature);
+                let d = desc_for(tx, &bb.descs);
                 let auto = d.is_none();
                 let sigok = d.map(sig_ok_by_construction).unwrap_or(true);
                 self.world.describe_tx(tx, auto, d, sigok)
@@ -406,6 +432,60 @@ impl<'a> Runner<'a> {
         let _ = AddOutcome::Invalid;
         (res, rres)
     }
+}
+
+/// add transactions to an honestly created block and redo what Block::create does after the
+/// transaction list is fixed: fee transaction, merkle root, signature
+pub async fn inject_transactions(block: &mut Block, extra: &[Transaction], builder: &Node, creator: &Key) {
+    let had_fee = block
+        .transactions
+        .last()
+        .map(|t| t.transaction_type == TransactionType::Fee)
+        .unwrap_or(false);
+    if had_fee {
+        block.transactions.pop();
+    }
+    // keep rebroadcasts (if any) behind the user transactions
+    let first_atr = block
+        .transactions
+        .iter()
+        .position(|t| t.transaction_type == TransactionType::ATR)
+        .unwrap_or(block.transactions.len());
+    for (i, tx) in extra.iter().enumerate() {
+        let mut t = tx.clone();
+        t.generate(&creator.public, 0, 0);
+        block.transactions.insert(first_atr + i, t);
+    }
+    if had_fee {
+        let configs = builder.configs.read().await;
+        let bc = builder.blockchain.read().await;
+        let cv = block
+            .generate_consensus_values(&bc, &builder.storage, &*configs)
+            .await;
+        if let Some(mut fee_tx) = cv.fee_transaction {
+            fee_tx.generate_hash_for_signature();
+            fee_tx.sign(&creator.private);
+            block.transactions.push(fee_tx);
+        }
+    }
+    block.transaction_map.clear();
+    block.created_hashmap_of_slips_spent_this_block = true; // as after Block::create
+    block.merkle_root = block.generate_merkle_root(false, false);
+    block.generate_pre_hash();
+    block.sign(&creator.private);
+    let _ = block.generate();
+}
+
+/// the scenario description of a transaction found in a block; rebroadcast transactions carry
+/// the signature of the transaction they rebroadcast, so the type is part of the match
+pub fn desc_for<'a>(tx: &Transaction, descs: &'a HashMap<SaitoSignature, TxDesc>) -> Option<&'a TxDesc> {
+    let d = descs.get(&tx.signature)?;
+    if matches!(tx.transaction_type, TransactionType::ATR | TransactionType::Fee)
+        && !matches!(d.edit.as_deref(), Some("type_atr") | Some("type_fee"))
+    {
+        return None;
+    }
+    Some(d)
 }
 
 pub fn apply_block_level_edit(block: &mut Block, e: &str, creator: &Key, _w: &LedgerWorld, _ts: Timestamp) {
